@@ -23,3 +23,9 @@ mod unbond;
 mod convert;
 #[cfg(test)]
 mod testing;
+
+// verification hooks (guarded; no effect unless --cfg kryptonitedao_krp_staking_contracts_verif)
+#[cfg(kryptonitedao_krp_staking_contracts_verif)]
+pub use crate::math::decimal_division as verif_decimal_division;
+#[cfg(kryptonitedao_krp_staking_contracts_verif)]
+pub use crate::unbond::verif_calculate_new_withdraw_rate;
